@@ -47,7 +47,7 @@ func init() { register("CacheRestore", genCacheRestore) }
 
 type crCtx struct {
 	pkg     *packages.Package
-	structs map[*types.Named]bool     // cache struct types and nested by-value struct types
+	structs map[*types.Named]bool // cache struct types and nested by-value struct types
 	decls   map[types.Object]*ast.FuncDecl
 	rows    map[string]bool
 }
